@@ -240,5 +240,22 @@ def run(chk):
                     accepted.append(logical)
             if bad:
                 chk.violation("repl|" + bad[1], bad[0], {"lines": phys_all, "kinds": kinds})
+        # long sessions: tens of thousands of block-level bindings come and go between the definition of a closure
+        # and its later uses; names defined afterwards are new names
+        if True:
+            for nblocks, per in (((34, 1000),) if quick else ((34, 1000), (10, 3000), (60, 600), (64, 1000))):
+                lines = ["let f = null;", "if true { let secret = 42; f = fn() { secret }; }", "puts(f());"]
+                lines += ["{ " + "let t = null; " * per + "}"] * nblocks
+                lines += ["puts(f());", "let y = 7;", "puts(f());", "puts(y);", "let z = [y, f()];", "puts(z);"]
+                outs, errs, rr = core.repl_session(lines, release=True, timeout=1200)
+                if outs is None:
+                    chk.inconc("long session did not complete")
+                    continue
+                chk.observed(("long-session", nblocks, per))
+                got = [o for l_, o in zip(lines, outs) if l_.startswith("puts(")]
+                want = ["42\n", "42\n", "42\n", "7\n", "[7, 42]\n"]
+                if got != want:
+                    chk.violation("repl|long-session", "after %d blocks of %d block-level bindings the session prints %s instead of %s" % (nblocks, per, got, want),
+                                  {"lines": lines[:3] + ["... %d x block of %d lets ..." % (nblocks, per)] + lines[-6:]})
     finally:
         shutil.rmtree(work, ignore_errors=True)
